@@ -92,3 +92,45 @@ def corpus_stats(summ):
         'worker_restarts': sum(1 for r in res if r.get('crash')),
         'harness_wall_ms': summ.get('wall_ms'),
     }
+
+
+def eval_cases(ctx, name, require, ctype, terms, failing_funcs, count_funcs, chunk=2500, par=4):
+    """evaluate case terms inside Coq in chunks (one huge list literal overflows coqc's stack):
+    returns ({func: sorted failing indices}, {func: count}) or None when a chunk does not compile"""
+    import concurrent.futures, re
+    chunks = [terms[i:i + chunk] for i in range(0, len(terms), chunk)] or [[]]
+
+    def one(ci):
+        ts = chunks[ci]
+        v = [require, 'Open Scope N_scope.',
+             'Definition cases : list %s := %s.' % (ctype, vlib.clist('(%s)' % t for t in ts))]
+        for j, f in enumerate(failing_funcs):
+            v.append('Definition F%d := Eval vm_compute in failing %s 0 cases.' % (j, f))
+            v.append('Print F%d.' % j)
+        for j, f in enumerate(count_funcs):
+            v.append('Definition N%d := Eval vm_compute in length (filter %s cases).' % (j, f))
+            v.append('Print N%d.' % j)
+        rc, out = vlib.coq_eval(ctx, '%s_%d' % (name, ci), '\n'.join(v), timeout=1500)
+        if rc != 0:
+            return ci, None, out
+        fails = [vlib.parse_nat_list(out, 'F%d' % j) for j in range(len(failing_funcs))]
+        counts = []
+        for j in range(len(count_funcs)):
+            m = re.search(r'N%d = (\d+)' % j, out)
+            counts.append(int(m.group(1)) if m else 0)
+        if any(f is None for f in fails):
+            return ci, None, out
+        return ci, (fails, counts), out
+
+    res_f = {f: [] for f in failing_funcs}
+    res_c = {f: 0 for f in count_funcs}
+    with concurrent.futures.ThreadPoolExecutor(max_workers=par) as ex:
+        for ci, r, out in ex.map(one, range(len(chunks))):
+            if r is None:
+                return None, out
+            fails, counts = r
+            for f, idx in zip(failing_funcs, fails):
+                res_f[f] += [ci * chunk + i for i in idx]
+            for f, n in zip(count_funcs, counts):
+                res_c[f] += n
+    return (res_f, res_c), ''
